@@ -86,7 +86,9 @@ void SLL::write_serialization(uint8_t* buffer, uint32_t total_sz) {
         Constants::Ethernet::e flag = Internals::pdu_flag_to_ether_type(
             inner_pdu()->pdu_type()
         );
-        protocol(static_cast<uint16_t>(flag));
+        if (flag != Constants::Ethernet::UNKNOWN) {
+            protocol(static_cast<uint16_t>(flag));
+        }
     }
     stream.write(header_);
 }
